@@ -98,7 +98,9 @@ def solution_single_time_step(
 
         if (
             (planting_date <= CurrentDate)
-            and (harvest_date >= CurrentDate)
+            # (the season's last day ends on the harvest date: the day that
+            # starts on the harvest date is no longer part of it)
+            and (harvest_date > CurrentDate)
             and (NewCond.crop_mature is False)
             and (NewCond.crop_dead is False)
         ):
